@@ -54,12 +54,18 @@ def generate(tier, rng):
         ops = [{"op": "new"}]
         n = 1
         ctr = [0]
+        final = {0: "any"}          # object -> class of the object it finally resolves to ("any" | "ro")
         links = set()
         L = rng.randrange(8, 26 if tier == "quick" else 41)
         for _ in range(L):
             r = rng.random()
             if r < 0.1 and n < 8:
-                ops.append({"op": "new"})
+                if rng.random() < 0.4:
+                    ops.append({"op": "new", "kind": "ro"})      # a target class with a read-only property `ro`
+                    final[n] = "ro"
+                else:
+                    ops.append({"op": "new"})
+                    final[n] = "any"
                 n += 1
             elif r < 0.3 and n < 8:
                 t = rng.randrange(n)
@@ -68,7 +74,11 @@ def generate(tier, rng):
                 kw = [[k, v] for k, v in kw]
                 ops.append({"op": "link", "t": t, "kw": kw})
                 links.add(n)
+                final[n] = final[t]
                 n += 1
+            elif r < 0.36 and any(v == "ro" for v in final.values()):
+                # an assignment the target refuses (read-only property): AttributeError, nothing stored anywhere
+                ops.append({"op": "setro", "i": rng.choice([i for i, v in final.items() if v == "ro"]), "v": _value(rng, ctr)})
             elif r < 0.55:
                 ops.append({"op": "set", "i": rng.randrange(n), "k": rng.choice(NAMES), "v": _value(rng, ctr)})
             elif r < 0.8:
